@@ -88,6 +88,25 @@ def run_case(chain, rcpts, hdkey, nth=1, block=None, sameobj=False):
         # says they are distinct)
         q.add_policy(insts.setdefault(p, POLS[p]()) if sameobj else POLS[p]())
     first = 0
+    import signal
+
+    class Runaway(BaseException):
+        pass
+
+    def _alarm(signum, frame):
+        raise Runaway()
+    signal.signal(signal.SIGALRM, _alarm)
+    signal.setitimer(signal.ITIMER_REAL, 15.0)            # a policy chain that never ends (or grows without bound) is a verdict too
+    try:
+        return _run_case_body(st, q, nth, rcpts, block, hdkey)
+    except Runaway:
+        return [{'t': 'raised', 'cls': 'Runaway'}]
+    finally:
+        signal.setitimer(signal.ITIMER_REAL, 0)
+
+
+def _run_case_body(st, q, nth, rcpts, block, hdkey):
+    first = 0
     for k in range(nth):
         e = Envelope('s@x', list(rcpts))
         e.parse((block or HDRS[hdkey]) + b'\r\n' + BODY)
